@@ -220,7 +220,32 @@ def gen_tree(rng: random.Random) -> dict[str, Any]:
     return {"entries": entries, "limit": limit}
 
 
-def gen_settings(rng: random.Random, limit: int) -> dict[str, Any]:
+def gen_settings(rng: random.Random, limit: int, entries: dict[str, Any] | None = None) -> dict[str, Any]:
+    s = _gen_settings(rng, limit)
+    # a user exclude pattern naming a directory by its path from the project root
+    # ("docs/drafts/", "/docs/"): anchored, gitignore style
+    a = random.Random(rng.getrandbits(32))
+    dirs = [p[len("t/") :] for p, e in (entries or {}).items() if "d" in e and p.startswith("t/") and not any(c in p for c in "*?[]!")]
+    negs = any(p_.startswith("!") for k_ in ("exclude", "extend_exclude") for p_ in (s[k_] or []))
+    if dirs and a.random() < 0.15 and not negs:
+        # (never together with negations: what "!name/" re-includes below an anchored pattern is
+        # where pathspec and git differ - C18's business)
+        d = a.choice(dirs)
+        pat = (d + "/") if "/" in d else ("/" + d + "/")
+        key = a.choice(["extend_exclude", "extend_exclude", "exclude"])
+        cur = s[key]
+        s[key] = (list(cur) if cur else []) + [pat]
+        if entries is not None and a.random() < 0.6:
+            # a directory of the same *name* elsewhere: not what the anchored pattern means
+            parent = a.choice(["t"] + ["t/" + x for x in dirs if x != d and not x.startswith(d + "/")])
+            twin = parent + "/" + os.path.basename(d)
+            if twin != "t/" + d and twin not in entries and parent.count("/") < 5:
+                entries[twin] = {"d": 1}
+                entries[twin + "/twin.md"] = {"f": 3}
+    return s
+
+
+def _gen_settings(rng: random.Random, limit: int) -> dict[str, Any]:
     s: dict[str, Any] = {
         "extend_include": rng.choice([[], [], [], ["*.mdx"], ["*.txt"], ["notes*"], ["*.mdx", "*.markdown"], ["!CHANGELOG.md"], ["*.mdx", "!draft.*"], ["!README*", "README.md"], ["*.txt", "!a.*"]]),
         "exclude": rng.choice([None, None, None, None, [], ["drafts/"], ["docs/", "x/"], ["vendor/", "dist/", "!vendor/"]]),
@@ -306,11 +331,16 @@ class Ref:
 
     # -- primitives ---------------------------------------------------------------------
 
-    def dir_excluded(self, name: str) -> bool:
-        """exclude + extend_exclude form one gitignore-style list: the last matching pattern wins."""
+    def dir_excluded(self, name: str, rel: str | None = None) -> bool:
+        """exclude + extend_exclude form one gitignore-style list: the last matching pattern wins.
+        `rel`: path of the directory relative to the anchor of slash-containing patterns (None:
+        such patterns are not considered)."""
         last = None
         for r in self.exclude_rules:
-            if rule_matches(r, name, True):
+            if r["anchored"]:
+                if rel is not None and rule_matches(r, rel, True):
+                    last = r
+            elif rule_matches(r, name, True):
                 last = r
         return last is not None and not last.get("neg")
 
@@ -385,10 +415,25 @@ class Ref:
         rel = os.path.relpath(path, base)
         dparts = rel.split("/")[:-1]
         may_reason = None
-        # excluded directories between base and the file
+        # excluded directories between base and the file. A pattern with a slash in the middle
+        # ("docs/drafts/") is anchored: relative to the walk root as implemented, relative to
+        # the project directory (cwd) as a user would expect - identical when the walk root is
+        # the cwd; where the two readings differ the statement is silent (MAY)
+        base_rel_cwd = os.path.relpath(base, self.root)
         for i, comp in enumerate(dparts):
-            if self.dir_excluded(comp):
-                return "NO", "excluded-dir"
+            rel_base = "/".join(dparts[: i + 1])
+            v1 = self.dir_excluded(comp, rel_base)
+            if base_rel_cwd == ".":
+                v2 = v1
+            elif base_rel_cwd.startswith(".."):
+                v2 = self.dir_excluded(comp, None)
+            else:
+                v2 = self.dir_excluded(comp, base_rel_cwd + "/" + rel_base)
+            if v1 and v2:
+                return "NO", "excluded-dir" if self.dir_excluded(comp, None) else "excluded-dir-path"
+            if v1 or v2:
+                may_reason = "anchored exclude pattern: walk root is not the cwd"
+                break
         # the closest tool ignore file at or above base
         ci = self.closest_toolignore(base)
         if ci is not None:
@@ -498,6 +543,9 @@ class Ref:
                     if self.dir_excluded(comp):
                         put(full, "NO", "force-exclude-excluded-dir", "explicit")
                         return
+                relc = os.path.relpath(os.path.dirname(os.path.join(self.root, arg)), self.root).split("/")
+                if any(self.dir_excluded(relc[i], "/".join(relc[: i + 1])) for i in range(len(relc)) if relc[i] not in (".", "..")):
+                    cls, reason = "MAY", "force-exclude and an anchored exclude pattern (statement silent on the anchor)"
                 ci = self.closest_toolignore(os.path.dirname(full))
                 if ci is not None:
                     idir, rules = ci
